@@ -45,6 +45,12 @@ def echo_hazards() -> Iterator[bytes]:
         name = bytes([ln]) + lab + b"\x05local\x00"
         first = b"".join(bytes([len(l)]) + l for l in base_q) + b"\x00" + struct.pack(">HH", 12, 1)
         yield D.header(0, 2, 0, 0, 0, id_=0x4243) + first + name + struct.pack(">HH", 12, 0x8001)
+    # a question name of valid UTF-8 that exceeds 255 octets, from a legacy port (echoed) and from 5353
+    e63 = "é".encode() * 31 + b"a"
+    longq = b"".join(bytes([len(l)]) + l for l in [e63, e63, e63, e63, b"local"]) + b"\x00"
+    first = b"".join(bytes([len(l)]) + l for l in base_q) + b"\x00" + struct.pack(">HH", 12, 1)
+    yield D.header(0, 2, 0, 0, 0, id_=0x4244) + first + longq + struct.pack(">HH", 12, 1)
+    yield D.header(0, 1, 0, 0, 0, id_=0x4245) + longq + struct.pack(">HH", 255, 0x8001)
     # the hazard as the *only* question, and in a question for a registered instance
     for ln in (21, 22, 32, 63):
         name = bytes([ln]) + b"\xff" * ln + b"\x02_a\x04_tcp\x05local\x00"
@@ -76,6 +82,13 @@ def response_hazards() -> Iterator[bytes]:
                 + rr(nm(b"pending", b"_c", b"_tcp", b"local"), 33, 0x8001, 120, struct.pack(">HHH", 0, 0, 80) + nm(h, b"local"))
             yield D.header(0x8400, 0, 1, 0, 0) + rr(nm(h, b"local"), 1, 0x8001, 120, bytes([10, 0, 0, 77]))
             yield D.header(0x8400, 0, 1, 0, 0) + rr(nm(b"h1", b"local"), 47, 0x8001, 120, nm(h, b"local") + b"\x00\x01\x40")
+    # valid UTF-8, every label within 63 bytes, but the whole name beyond the 255 octets a name may take on the wire (the
+    # decoder counts characters): again a name that cannot be sent back
+    e63 = "é".encode() * 31 + b"a"
+    for typ in (b"_b", b"_c"):
+        yield D.header(0x8400, 0, 1, 0, 0) + rr(nm(typ, b"_tcp", b"local"), 12, 1, 4500, nm(e63, e63, e63, e63, typ, b"_tcp", b"local"))
+    yield D.header(0x8400, 0, 2, 0, 0) + rr(nm(b"_c", b"_tcp", b"local"), 12, 1, 4500, nm(b"pending", b"_c", b"_tcp", b"local")) \
+        + rr(nm(b"pending", b"_c", b"_tcp", b"local"), 33, 0x8001, 120, struct.pack(">HHH", 0, 0, 80) + nm(e63, e63, e63, e63, b"local"))
 
 
 def oversize() -> Iterator[bytes]:
